@@ -5,6 +5,7 @@ import (
 	"os"
 	"path/filepath"
 	"sort"
+	"syscall"
 	"testing"
 
 	"github.com/RoaringBitmap/roaring/v2"
@@ -14,6 +15,7 @@ import (
 
 	"verifharness/drive"
 	"verifharness/faults"
+	"verifharness/gen"
 	"verifharness/spec"
 )
 
@@ -25,6 +27,29 @@ type faultCase struct {
 	BufSize int             `json:"bufSize"`         // DefaultFileMergerBufferSize for merge
 	Fracs   []uint16        `json:"fracs"`           // extra offsets as fractions of the output size
 	Dense   bool            `json:"dense,omitempty"` // enumerate every offset regardless of size
+	// Reserved: the destination path already exists as an EMPTY file when the operation starts
+	// (the caller reserved the name, as os.CreateTemp does)
+	Reserved bool `json:"reserved,omitempty"`
+}
+
+// reserve creates the empty destination file of a Reserved case.
+func (c faultCase) reserve(path string) {
+	if c.Reserved {
+		if f, err := os.OpenFile(path, os.O_CREATE|os.O_WRONLY, 0o600); err == nil {
+			f.Close()
+		}
+	}
+}
+
+// syncFaultPath returns a destination on which every write succeeds (up to the pipe capacity)
+// and the final sync fails: a FIFO. It models a write failure that the operating system
+// reports only when the file is synced.
+func syncFaultPath(tag string) (string, bool) {
+	p := drive.NewPath(tag)
+	if err := syscall.Mkfifo(p, 0o600); err != nil {
+		return "", false
+	}
+	return p, true
 }
 
 func genFaultCase(t *rapid.T) faultCase {
@@ -54,6 +79,7 @@ func genFaultCase(t *rapid.T) faultCase {
 	}
 	c.BufSize = rapid.SampledFrom([]int{64, 1, 7, 4096, 1 << 20}).Draw(t, "bufSize")
 	c.Fracs = rapid.SliceOfN(rapid.Uint16(), 8, 24).Draw(t, "fracs")
+	c.Reserved = gen.Chance(t, "reserved", 35)
 	return c
 }
 
@@ -107,7 +133,7 @@ func faultOffsets(size int, bufSize int, fracs []uint16, dense bool) []int {
 }
 
 var faultStats struct {
-	faulted, body, fit int64
+	faulted, body, fit, syncFaults int64
 }
 
 func runFaultCase(c faultCase) *Violation {
@@ -163,6 +189,7 @@ func runFaultCase(c faultCase) *Violation {
 				continue
 			}
 			p2 := drive.NewPath("c17f")
+			c.reserve(p2)
 			var perr error
 			lerr := faults.WithFileSizeLimit(uint64(off), func() {
 				perr = drive.Safe(func() error { return sb.Persist(p2) })
@@ -177,6 +204,21 @@ func runFaultCase(c faultCase) *Violation {
 			}
 			if serr == nil {
 				return violation(prop, "persist/file-left-behind", "Persist failed (%v) at offset %d of %d but left a file at the path", perr, off, size)
+			}
+		}
+		// the failure is reported only by the final sync (outputs that fit into a pipe buffer)
+		if c.Op == "persist" && size <= 32<<10 {
+			if p3, ok := syncFaultPath("c17s"); ok {
+				perr := drive.Safe(func() error { return sb.Persist(p3) })
+				_, serr := os.Lstat(p3)
+				os.Remove(p3)
+				faultStats.syncFaults++
+				if perr == nil {
+					return violation(prop, "persist/sync-fault-swallowed", "Persist returned nil although syncing the destination failed")
+				}
+				if serr == nil {
+					return violation(prop, "persist/file-left-behind", "Persist failed (%v) when the destination was synced but left something at the path", perr)
+				}
 			}
 		}
 		// un-creatable path
@@ -213,6 +255,7 @@ func runFaultCase(c faultCase) *Violation {
 		r := spec.Resolve(root)
 		want := spec.ExpectResolved(r)
 		path := drive.NewPath("c17m")
+		c.reserve(path)
 		defer os.Remove(path)
 		var size uint64
 		if err := drive.Safe(func() error {
@@ -243,6 +286,7 @@ func runFaultCase(c faultCase) *Violation {
 				faultStats.body++
 			}
 			p2 := drive.NewPath("c17mf")
+			c.reserve(p2)
 			var merr error
 			lerr := faults.WithFileSizeLimit(uint64(off), func() {
 				merr = drive.Safe(func() error {
@@ -281,6 +325,23 @@ func runFaultCase(c faultCase) *Violation {
 				return violation(prop, "merge/file-left-behind", "Merge failed (%v) at offset %d of %d (buffer %d) but left a file at the path", merr, off, len(data), c.BufSize)
 			}
 		}
+		if len(data) <= 32<<10 {
+			if p3, ok := syncFaultPath("c17ms"); ok {
+				merr := drive.Safe(func() error {
+					_, _, e := drive.Merge(segs, drops, p3, root.ChunkMode, nil, nil)
+					return e
+				})
+				_, serr := os.Lstat(p3)
+				os.Remove(p3)
+				faultStats.syncFaults++
+				if merr == nil {
+					return violation(prop, "merge/sync-fault-swallowed", "Merge returned nil although syncing the destination failed")
+				}
+				if serr == nil {
+					return violation(prop, "merge/file-left-behind", "Merge failed (%v) when the destination was synced but left something at the path", merr)
+				}
+			}
+		}
 		bad := filepath.Join(drive.ScratchDir(), "no-such-dir", "m.zap")
 		if _, _, err := drive.Merge(segs, drops, bad, root.ChunkMode, nil, nil); err == nil {
 			return violation(prop, "merge/uncreatable-path", "Merge to a path in a missing directory returned nil")
@@ -316,10 +377,14 @@ var c17 = Check[faultCase]{
 	Gen: genFaultCase, Run: runFaultCase,
 	Classify: func(c faultCase) (bool, []string) {
 		r := spec.Resolve(c.Plan)
-		return len(r.Docs) > 0, []string{"op=" + c.Op, fmt.Sprintf("buf=%d", c.BufSize)}
+		cl := []string{"op=" + c.Op, fmt.Sprintf("buf=%d", c.BufSize)}
+		if c.Reserved {
+			cl = append(cl, "destination-reserved(empty-file)")
+		}
+		return len(r.Docs) > 0, cl
 	},
 	Extra: func() map[string]any {
-		return map[string]any{"faulted_operations": faultStats.faulted, "faults_strictly_inside_body": faultStats.body, "merge_outputs_that_fit_under_the_limit": faultStats.fit}
+		return map[string]any{"faulted_operations": faultStats.faulted, "faults_strictly_inside_body": faultStats.body, "merge_outputs_that_fit_under_the_limit": faultStats.fit, "failures_reported_at_sync": faultStats.syncFaults}
 	},
 }
 
